@@ -244,9 +244,25 @@ def gen_body(src, vars_, preds, size, cfg, cutok=True):
         if 'cut' in cfg.control and cutok and k in (15, 12):
             return ('cut',)
         return gen_goal(src, vars_, preds, cfg)
+    c = cfg.control
+    if size >= 4 and 'ite' in c and ';' in c and src.rare(1, 6):
+        # shapes in which the syntactic role of '->' depends on its surroundings
+        leaf = lambda ok=cutok: gen_body(src, vars_, preds, 1, cfg, ok)      # noqa: E731
+        cond = lambda: gen_body(src, vars_, preds, 1, cfg, False)          # noqa: E731
+        j = src.n(6)
+        if j == 0:      # (C1 -> T1 ; ((C2 -> T2 ; E2) ; F)): an if-then-else that is NOT last in the else branch
+            return (';', ('->', cond(), leaf()), (';', (';', ('->', cond(), leaf()), leaf()), leaf()))
+        if j == 1:      # ((C -> T), true ; E): the trailing true keeps ';' from becoming the else of the if-then
+            return (';', (',', ('->', cond(), leaf()), ('true',)), leaf())
+        if j == 2:      # an if-then-else as condition of another one
+            return (';', ('->', (';', ('->', cond(), cond()), cond()), leaf()), leaf())
+        if j == 3:      # ((A ; (C -> T)) ; X)
+            return (';', (';', leaf(), ('->', cond(), leaf())), leaf())
+        if j == 4:      # (C -> T ; E), true ; F   and a continuation
+            return (',', (';', (',', (';', ('->', cond(), leaf()), leaf()), ('true',)), leaf()), leaf())
+        return (';', ('->', cond(), (';', ('->', cond(), leaf()), leaf())), (';', ('->', cond(), leaf()), leaf()))
     l = 1 + src.n(size - 1)
     k = src.n(12)
-    c = cfg.control
     if k >= 6 and k < 8 and ';' in c:
         return (';', gen_body(src, vars_, preds, l, cfg, cutok), gen_body(src, vars_, preds, size - l, cfg, cutok))
     if k >= 8 and k < 10 and 'ite' in c:
